@@ -99,6 +99,31 @@ func c15JudgeA(tb vt.TB, spec *c15Spec) (cut bool) {
 	var diffs []c15Diff
 	c15Compare(want, c15SnapOf(c0), "load-files", want.Name, &diffs)
 	if len(diffs) > 0 {
+		// a case that ends here because of the recorded byte-order-mark finding still has its directory and archive
+		// forms compared with each other: the two loaders must at least agree
+		onlyBOM := true
+		for _, d := range diffs {
+			if !strings.Contains(d.Sig, "leading-utf8-bom-removed-on-load") {
+				onlyBOM = false
+			}
+		}
+		if onlyBOM {
+			if tmpB, err := os.MkdirTemp("", "c15ab-"); err == nil {
+				defer os.RemoveAll(tmpB)
+				dirB, tgzB := filepath.Join(tmpB, "chartdir"), filepath.Join(tmpB, "harness.tgz")
+				if c15WriteTree(dirB, flat) == nil && os.WriteFile(tgzB, c15Tgz("chartdir", flat), 0o644) == nil {
+					cT, errT := loader.Load(tgzB)
+					cD, errD := loader.Load(dirB)
+					if errT == nil && errD == nil {
+						var dd []c15Diff
+						c15Compare(c15FilterRoot(c15SnapOf(cT), c15DefaultRules), c15SnapOf(cD), "directory-vs-archive", want.Name, &dd)
+						if c15Report(tb, dd, rc) {
+							return true
+						}
+					}
+				}
+			}
+		}
 		if c15Report(tb, diffs, rc) {
 			return true
 		}
